@@ -46,3 +46,49 @@ Theorem decode_stream_total ss raw : clean_or_mal (snd (decode_stream ss raw)).
 Proof.
   unfold decode_stream. eapply good_clean; [left; reflexivity | apply run_chain_good].
 Qed.
+
+(* ---- memory of a whole chain ---- *)
+From Coq Require Import ZifyBool.
+From GoPdf.Gen Require Import Gen_Limits.
+From GoPdf.C08 Require Import Charge ChargeProofs BudgetProofs.
+
+Lemma stage_sites_ok s : Forall site_ok (stage_sites s).
+Proof.
+  destruct s; cbn [stage_sites]; try constructor.
+  destruct (pp_validate _ && negb (_ =? 1)%Z) eqn:E; [|constructor].
+  apply andb_prop in E as [E1 E2]. constructor; [|constructor].
+  apply predict_site_ok; [exact E1 | lia].
+Qed.
+
+Lemma chain_sites_ok ss : Forall site_ok (chain_sites ss).
+Proof.
+  unfold chain_sites. induction ss as [|s r IH]; cbn [flat_map]; [constructor|].
+  apply Forall_app. split; [apply stage_sites_ok | exact IH].
+Qed.
+
+Lemma chain_fixed_bound ss : (0 <= chain_fixed ss <= Z.of_nat (length ss) * 20480)%Z.
+Proof.
+  induction ss as [|s r IH]; cbn [chain_fixed fold_right length]; [lia|].
+  fold (chain_fixed r). assert (0 <= stage_fixed s <= 20480)%Z.
+  { destruct s; cbn [stage_fixed]; rewrite ?lzw_table_bytes_eq; lia. }
+  lia.
+Qed.
+
+(* whatever the chain, the parameters and the body (shorter than 2^63 bytes, as every Go
+   slice is): the buffers of the charging sites stay within StreamBudget(rawLen) <= 8 MiB +
+   256 MiB, and the tables that are not charged are at most 20 KiB per stage, 160 KiB for the
+   longest chain GetFilters admits *)
+Theorem chain_memory (ss : list stage) (raw : bytes) :
+  (length ss <= 8)%nat -> (Z.of_nat (length raw) < 2 ^ 63)%Z ->
+  let budget := StreamBudget (Z.of_nat (length raw)) in
+  (0 <= fst (run_sites budget (chain_sites ss)) <= budget)%Z /\
+  (budget <= 8388608 + 268435456)%Z /\
+  (0 <= chain_fixed ss <= 163840)%Z.
+Proof.
+  intros Hl Hraw budget.
+  assert (Hi : int64 (Z.of_nat (length raw))) by (unfold int64; lia).
+  destruct StreamBudget_props as (Hb & _ & _). specialize (Hb _ Hi). fold budget in Hb.
+  destruct (discipline (chain_sites ss) budget (chain_sites_ok ss)) as [H1 H2].
+  pose proof (chain_fixed_bound ss) as Hf.
+  split; [split; [exact H1 | apply H2; lia] | split; lia].
+Qed.
